@@ -78,6 +78,12 @@ def run(ctx):
                 cases.append(("pil", v, box, b, colour_specs[0]))
                 cases.append(("pil", v, box, b, rnd.choice(colour_specs[1:])))
     cases += [("pil", 2, 3, 1, cs) for cs in colour_specs]      # same canvas size, every colour pair in turn (state kept between renderings would show)
+    # colours next to the black/white special case (a luminance test, a rounded grey level, a widened fast path would show here)
+    corner_specs = [((0, 1, 0), "white"), ((3, 0, 0), "white"), ((1, 1, 0), (255, 255, 255)), ((0, 0, 8), "#ffffff"), ("#000006", "white"),
+                    ("#010101", "#fefefe"), ((1, 1, 1), (254, 254, 254)), ("black", (255, 255, 254)), ("black", "#fffffe"), ((0, 0, 0), (254, 255, 255)),
+                    ("#000", "#fff"), ("rgb(0,0,1)", "rgb(255,255,255)"), ("hsl(0,0%,0%)", "white"), ("gray", "white"), ("grey", "silver"),
+                    ((0, 0, 1), "white"), ((2, 0, 0), "WHITE"), ("#000100", "White")]
+    cases += [("pil", 1, 2, 1, cs) for cs in corner_specs]
     cases += [("png", 40, 1, 0, None), ("pil", 40, 2, 1, colour_specs[0]), ("png", 33, 2, 4, None)]      # the largest symbols
     log(f"{len(reqs)} pixel boxes; {len(cases)} image cases")
     reuse = qrcode.QRCode()
